@@ -423,7 +423,7 @@ def run_c06(ck, ctx):
     F = faults(R)
     fnames = [k for k in F if not k.startswith('run_') and k not in ('rdh_version',)]
     for si in range(n):
-        base, meta = G.conforming_stream(R, nlinks=R.randint(2, 5), max_hbf=3, mode=R.choice(['contig', 'rr', 'rand']))
+        base, meta = G.conforming_stream(R, nlinks=R.randint(2, 5), max_hbf=3, mode=R.choice(['rr', 'rand']) if si % 4 == 0 else R.choice(['contig', 'rr', 'rand']))
         pk = [p.clone() for p in base]
         # corrupt one or two links
         nf = R.choice([0, 1, 2, 3])
@@ -437,6 +437,12 @@ def run_c06(ck, ctx):
         if si % 2 == 0:
             for p in pk_shared: p.rdh['link'] = p.rdh['link'] % 2
             ck.count('c06_stave_streams_with_shared_link_ids')
+            if si % 4 == 0:
+                # ... and the same read-out source altogether (one CRU, one end point, one link id): only the FEE ID tells the
+                # staves apart, packets of different staves follow each other directly (seeded C06-m4: a "same source as the
+                # previous packet" shortcut in the dispatcher)
+                for p in pk_shared: p.rdh.update(link=3, cru=23, dw=0)
+                ck.count('c06_stave_streams_with_one_readout_source')
         data_shared = G.encode(pk_shared)
         for m in [('all', 'its'), ('all', 'stave'), ('sanity', 'its'), ('all', None)]:
             key = 'fee' if m[1] == 'stave' else 'link'
